@@ -273,6 +273,19 @@ def getDependentProducts (db : Db) (fuel : Nat) (top : Prod) (topological checkC
   | none => .outOfFuel
   | some (out, _) => finishListing db fuel top topological checkCycles out
 
+/-- `getDependentProducts` by an `Eups` whose setup type holds `exact` (`Eups(exact_version=True)`, `-e`), on tables of
+the form `if (type == exact) { … } else { … }` (expandtable's output): the first walk follows the exact branches (`dbE`:
+every declaration with the lines of its exact branch), the second walk of the topological / checkCycles modes is made
+with `followExact=False` — `Table.dependencies` drops `exact` from a *copy* of the setup type — and follows the else
+branches (`db`), with the versions of the first walk required.  The object's own setup type is left as it was, so the
+next listing by the same object follows the exact branches again.  (VRO without `type:exact`: the stock VRO appends
+`exact` to the setup type at every resolution.) -/
+def getDependentProductsExact (dbE db : Db) (fuel : Nat) (top : Prod) (topological checkCycles : Bool) : Outcome :=
+  if dbE.tableMissing top then .ok [] else
+  match listing dbE fuel [] top with
+  | none => .outOfFuel
+  | some (out, _) => finishListing db fuel top topological checkCycles out
+
 /-- `setup=True` ("get the version that's actually setup"): every listed product is replaced by the version of it
 that is set up (`findSetupProduct`: the declared version the environment names), and dropped when none is
 (`shouldRaise=False`: a message for a required one) -/
@@ -356,6 +369,19 @@ def usesInfo (db : Db) (fuel : Nat) : UsesOutcome :=
     | [], sb => .ok (sb.map fun p => (p.1, minPerUser p.2))
     | d :: ds, sb =>
       match getDependentProducts db fuel ⟨d.name, some d.ver, true⟩ true false with
+      | .outOfFuel => .outOfFuel
+      | .cycle => .cycle
+      | .ok l =>
+        go ds (l.foldl (fun sb e => sbAdd sb (e.prod.name, e.prod.ver)
+                 ⟨d.name, d.ver, e.prod.ver, e.optional, e.depth.getD 0⟩) sb)
+  go db.decls []
+
+/-- `Eups.uses()` by an object in exact mode: every product's topological listing through its exact branch -/
+def usesInfoExact (dbE db : Db) (fuel : Nat) : UsesOutcome :=
+  let rec go : List Decl → SetupBy → UsesOutcome
+    | [], sb => .ok (sb.map fun p => (p.1, minPerUser p.2))
+    | d :: ds, sb =>
+      match getDependentProductsExact dbE db fuel ⟨d.name, some d.ver, true⟩ true false with
       | .outOfFuel => .outOfFuel
       | .cycle => .cycle
       | .ok l =>
